@@ -102,6 +102,10 @@ class Kinds:
         return None
 
 
+def fkey_of(f):
+    return "%s/%d" % (f.name, len(f.params))
+
+
 def main(tier):
     chk = Check("C01", tier,
                 "Static index-kind discipline of the kriging system assembly: positions in the neighbourhood and sample ranks are "
@@ -157,6 +161,53 @@ def main(tier):
                                                                                  "RANK_IN": "sample rank of the input Db", "RANK_OUT": "target rank"}[kd],
                                                                          what, " or ".join(sorted(want))),
                        key="C01|%s|%s|%s#%d" % (fkey, what, name, ordn[(what, name)]), nontrivial=kd is not None)
+    # C01v: per-variable locators (measurement-error variance V, variables Z) are read with the index of the variable being
+    # assembled; a literal item is accepted only where the system is known to be monovariate (code mode: setKrigOptCode requires
+    # one variable and one V column)
+    from e1_paths import CFG, peel_cond
+    nv = 0
+    for f in sorted(prog.funcs, key=lambda x: (x.file, x.line)):
+        if f.cls != CLS or f.body is None or f.cfg is None or not f.file.endswith("KrigingSystem.cpp"):
+            continue
+        varloops = set()
+        for loop in f.walk():
+            if loop["k"] == "For" and loop["c"][1] is not None:
+                for x in walk(loop["c"][1]):
+                    if x["k"] == "BinOp" and x.get("op") == "<" and x["c"][0] is not None and x["c"][0]["k"] == "DeclRefExpr" and \
+                            this_field(x["c"][1]) in ("_nvar", "_nvarCL"):
+                        varloops.add(x["c"][0]["d"])
+        for c in f.calls():
+            if c["k"] != "MCall" or (c.get("callee") or "").split("::")[-1] != "getLocVariable" or show(call_obj(c)) not in ("_dbin", "_dbout"):
+                continue
+            a = call_args(c)
+            if len(a) < 3 or a[0] is None or (a[0].get("q") or show(a[0])) not in ("ELoc::V", "ELoc::Z"):
+                continue
+            item = a[2]
+            while item is not None and item["k"] == "Cast":
+                item = item["c"][0]
+            nv += 1
+            chk.analysed(f)
+            if item is not None and item["k"] == "Int" and varloops:
+                g = CFG(f)
+                # monovariate context: every path to the call passes `_flagCode` true
+                def eo(blk, k, s_):
+                    cnd = g.cond(blk["b"])
+                    if cnd is None or len(blk["s"]) != 2:
+                        return True
+                    core, pol = peel_cond(cnd)
+                    if this_field(core) == "_flagCode":
+                        return not (((k == 0) == pol) is True)
+                    return True
+                w = g.search(g.entry_pos(), is_target=lambda y, c=c: y["i"] == c["i"], edge_ok=eo) if g.pos_of(c) else None
+                ok = w is None
+                chk.ob("C01v", "%s: %s of the per-variable locator %s is read with the index of the variable being assembled" % (f.name, "item", a[0].get("q") or show(a[0])), f.loc(c), ok,
+                       detail=None if ok else "item %s is a literal inside the loops over the variables (outside the monovariate code mode): every variable gets the "
+                       "value of variable %s in the kriging system" % (item["v"], item["v"]), key="C01v|%s|%s|literal%d" % (fkey_of(f), a[0].get("q") or show(a[0]), item["v"]),
+                       path=None if ok else g.describe(w))
+            else:
+                chk.ob("C01v", "%s: item `%s` of the per-variable locator %s" % (f.name, show(item)[:20], a[0].get("q") or show(a[0])), f.loc(c), True,
+                       key="C01v|%s|%s|%s" % (fkey_of(f), a[0].get("q") or show(a[0]), show(item)[:20]), nontrivial=item is not None and item.get("d") in varloops)
+    chk.floor("C01v", nv, 2)
     chk.extra["sinks_with_inferred_kind"] = nk
     chk.floor("C01", n, 60)
     chk.floor("C01-kinded", nk, 30)
